@@ -34,8 +34,12 @@ def grid_for(dadi, rng, pts, it):
 
 def l3_frozen_marginal(chk, ctx, rng, n):
     dadi = ctx['dadi']
-    for it in range(n):
-        d = 2 + it % 4
+    # every (driver with pre-computed coefficients, frozen population) pair with the Chang-Cooper option on, constant parameters,
+    # selection and migration among the others — on every run (seed C04-9: one coefficient block of one driver used delj for 1-delj)
+    forced = [(d, k) for d in (2, 3) for k in range(d)]
+    for it in range(-len(forced), n):
+        fc = forced[it + len(forced)] if it < 0 else None
+        d = 2 + it % 4 if fc is None else fc[0]
         pts = {2: 14, 3: 9, 4: 7, 5: 5}[d] + int(rng.integers(0, 2))
         xx = grid_for(dadi, rng, pts, it)
         phi = gen.density(rng, [pts] * d)
@@ -51,6 +55,12 @@ def l3_frozen_marginal(chk, ctx, rng, n):
         if all(fr): fr[int(rng.integers(d))] = False
         varying = bool((it // 4) % 2)          # independent of d (= 2 + it % 4)
         delj = bool((it // 8) % 2)             # the Chang-Cooper option: both the C kernels and the pre-computed Python coefficients
+        if fc is not None:
+            varying = False; delj = True
+            fr = [i == fc[1] for i in range(d)]
+            gammas = [float(rng.choice([-1, 1])) * float(rng.uniform(4, 9)) for _ in range(d)]
+            for (i, j) in list(ms):
+                ms[(i, j)] = 0.0 if (i == fc[1] or j == fc[1]) else float(rng.uniform(0.5, 3))
         T = float(rng.uniform(0.01, 0.1))
         kw = kwargs_for(d, nus, ms, gammas, hs, th, fr, nm)
         if varying:
